@@ -1,0 +1,18 @@
+//go:build verif
+
+package mysql
+
+import (
+	"context"
+
+	"github.com/cossacklabs/acra/encryptor/base/config"
+)
+
+// Verification hook (add-only, compiled with -tags verif only).
+
+// VerifS65EncryptWithColumnSettings calls QueryDataEncryptor.encryptWithColumnSettings: what the query encryptor does
+// with the value of a configured column of an INSERT / UPDATE (selection of the identity the value is protected
+// for, then the DataEncryptor chain).
+func (encryptor *QueryDataEncryptor) VerifS65EncryptWithColumnSettings(ctx context.Context, setting config.ColumnEncryptionSetting, data []byte) ([]byte, error) {
+	return encryptor.encryptWithColumnSettings(ctx, setting, data)
+}
